@@ -28,6 +28,11 @@ pub struct Case {
     /// attachment, and a non-matching exclude list whose descriptors carry transports hints
     #[serde(default)]
     pub decor: bool,
+    /// extension interplay: 0 none; 1 authenticator with hmac-secret (non-UV secret, evaluation at
+    /// creation), request asks credProps + prf eval; 2 authenticator with UV-only hmac-secret,
+    /// request carries an empty prf object; 3 default authenticator, request asks credProps + prf
+    #[serde(default)]
+    pub ext: u8,
 }
 
 pub fn alg_list(n: u8) -> (Vec<webauthn::PublicKeyCredentialParameters>, bool) {
@@ -59,7 +64,7 @@ pub fn users() -> Vec<(Vec<u8>, String)> {
 }
 
 fn base() -> Case {
-    Case { challenge: challenges()[5].clone(), user: 1, org: Org::HostIsRp, algs: 1, mode: Mode::Default, counter: false, memory_store: false, id_len: None, rk: true, decor: false }
+    Case { challenge: challenges()[5].clone(), user: 1, org: Org::HostIsRp, algs: 1, mode: Mode::Default, counter: false, memory_store: false, id_len: None, rk: true, decor: false, ext: 0 }
 }
 
 pub fn cases(tier: Tier) -> Vec<Case> {
@@ -72,7 +77,7 @@ pub fn cases(tier: Tier) -> Vec<Case> {
                 for mode in MODES {
                     for counter in [false, true] {
                         for memory_store in [false, true] {
-                            v.push(Case { challenge: ch.clone(), user: ((ch.len() + algs as usize) % 4) as u8, org, algs, mode, counter, memory_store, id_len: None, rk: true, decor: (ch.len() + algs as usize) % 2 == 1 });
+                            v.push(Case { challenge: ch.clone(), user: ((ch.len() + algs as usize) % 4) as u8, org, algs, mode, counter, memory_store, id_len: None, rk: true, decor: (ch.len() + algs as usize) % 2 == 1, ext: 0 });
                         }
                     }
                 }
@@ -85,7 +90,9 @@ pub fn cases(tier: Tier) -> Vec<Case> {
             for mode in MODES {
                 for rk in [false, true] {
                     for decor in [false, true] {
-                        v.push(Case { user, org, mode, rk, decor, ..base() });
+                        for ext in 0..4u8 {
+                            v.push(Case { user, org, mode, rk, decor, ext, ..base() });
+                        }
                     }
                 }
             }
@@ -94,7 +101,7 @@ pub fn cases(tier: Tier) -> Vec<Case> {
     // every requested credential-id length against the base point (and, thorough, against each org/mode)
     for n in 0..=255u8 {
         v.push(Case { id_len: Some(n), ..base() });
-        v.push(Case { id_len: Some(n), memory_store: true, counter: true, ..base() });
+        v.push(Case { id_len: Some(n), memory_store: true, counter: true, ext: 1 + n % 3, ..base() });
         if tier == Tier::Thorough {
             for org in ORGS {
                 for mode in MODES {
@@ -104,6 +111,22 @@ pub fn cases(tier: Tier) -> Vec<Case> {
         }
     }
     v
+}
+
+pub fn ext_inputs(ext: u8) -> Option<webauthn::AuthenticationExtensionsClientInputs> {
+    use webauthn::{AuthenticationExtensionsPrfInputs as P, AuthenticationExtensionsPrfValues as V};
+    match ext {
+        0 => None,
+        2 => Some(webauthn::AuthenticationExtensionsClientInputs { cred_props: None, prf: Some(P { eval: None, eval_by_credential: None }), prf_already_hashed: None }),
+        _ => Some(webauthn::AuthenticationExtensionsClientInputs { cred_props: Some(true), prf: Some(P { eval: Some(V { first: vec![1, 2, 3].into(), second: Some(vec![4].into()) }), eval_by_credential: None }), prf_already_hashed: None }),
+    }
+}
+pub fn ext_cfg(ext: u8, counter: bool, id_len: Option<u8>) -> AuthCfg {
+    match ext {
+        1 => AuthCfg { counter, id_len, hmac: 2, hmac_mc: true },
+        2 => AuthCfg { counter, id_len, hmac: 1, hmac_mc: false },
+        _ => AuthCfg { counter, id_len, hmac: 0, hmac_mc: false },
+    }
 }
 
 pub struct RegCheck {
@@ -123,7 +146,7 @@ where
     let (rp_arg, rp_eff, origin_str) = c.org.spec();
     let before = snapshot();
     let selection = Some(webauthn::AuthenticatorSelectionCriteria { authenticator_attachment: None, resident_key: None, require_resident_key: c.rk, user_verification: Default::default() });
-    let mut opts = creation_options(Reg { rp_id: rp_arg.map(|s| s.to_string()), challenge: c.challenge.clone(), user_id: uid.clone(), user_name: uname, params: list, exclude: None, selection, extensions: None });
+    let mut opts = creation_options(Reg { rp_id: rp_arg.map(|s| s.to_string()), challenge: c.challenge.clone(), user_id: uid.clone(), user_name: uname, params: list, exclude: None, selection, extensions: ext_inputs(c.ext) });
     if c.decor {
         use webauthn::AuthenticatorTransport as T;
         let pk = &mut opts.public_key;
@@ -228,7 +251,7 @@ pub fn eval(c: &Case) -> (Vec<Finding>, String) {
     let log = Log::new();
     let uv = ScriptedUv::consenting(log.clone());
     let seeds = vec![seeded(&Seed { n: 1, rp: c.org.rp(), handle: Some(vec![1]), counter: Some(3), hmac: None }), seeded(&Seed { n: 2, rp: "other.org".into(), handle: Some(vec![2]), counter: None, hmac: None })];
-    let tweak = &AuthCfg { counter: c.counter, id_len: c.id_len, ..Default::default() };
+    let tweak = &ext_cfg(c.ext, c.counter, c.id_len);
     let rc = if c.memory_store {
         let mut m = MemoryStore::new();
         for s in seeds {
@@ -289,8 +312,8 @@ fn seq_apply_any(store: &SeqStore, a: &RegAct) -> RegCheck {
         SeqStore::Ref(r) => seq_apply(r, a),
         SeqStore::Mem(m) => {
             let org = SEQ_ORGS[a.rp as usize % 2];
-            let c = Case { user: a.user, org, rk: a.rk, counter: a.rk, decor: a.user % 2 == 1, memory_store: true, ..base() };
-            let mut client = mk_client(m.clone(), ScriptedUv::consenting(Log::new()), org, &AuthCfg { counter: c.counter, ..Default::default() });
+            let c = Case { user: a.user, org, rk: a.rk, counter: a.rk, decor: a.user % 2 == 1, memory_store: true, ext: (a.user + a.rp) % 4, ..base() };
+            let mut client = mk_client(m.clone(), ScriptedUv::consenting(Log::new()), org, &ext_cfg(c.ext, c.counter, None));
             check_registration(&mut client, &|| m.recs(), &c)
         }
     }
@@ -305,8 +328,8 @@ fn seq_init(init: usize) -> Shared<RefStore> {
 }
 fn seq_apply(store: &Shared<RefStore>, a: &RegAct) -> RegCheck {
     let org = SEQ_ORGS[a.rp as usize % 2];
-    let c = Case { user: a.user, org, rk: a.rk, counter: a.rk, decor: a.user % 2 == 1, ..base() };
-    let mut client = mk_client(store.clone(), ScriptedUv::consenting(Log::new()), org, &AuthCfg { counter: c.counter, ..Default::default() });
+    let c = Case { user: a.user, org, rk: a.rk, counter: a.rk, decor: a.user % 2 == 1, ext: (a.user + a.rp) % 4, ..base() };
+    let mut client = mk_client(store.clone(), ScriptedUv::consenting(Log::new()), org, &ext_cfg(c.ext, c.counter, None));
     check_registration(&mut client, &|| store.recs(), &c)
 }
 /// canonical snapshot: (rp, handle, has counter) per record in creation order – ids and keys are
